@@ -87,7 +87,16 @@ pub fn check(cx: &Cx, rep: &mut Report) {
                 }
             }
             None => {
-                // R3: on an unbounded mailbox a send never returns Pending
+                // R3: on an unbounded mailbox a send never returns Pending - however long the backlog
+                for o in ix.ops.iter().filter(|o| o.tag == af.tag && o.op == OpK::Burst && o.executed()) {
+                    if let (Some(p), Some(Res::Count(n))) = (o.pending, &o.res) {
+                        rep.premise("C12.R3.unbounded_never_waits");
+                        rep.max("max.C12.R3.burst_on_unbounded", *n);
+                        if p > 0 {
+                            rep.fail(P, "R3", "unbounded_send_waited;burst", format!("burst c{}#{} of {n} sends on the unbounded mailbox of tag {}: {p} of them returned Pending", o.c, o.i, af.tag), vec![o.b]);
+                        }
+                    }
+                }
                 for o in &sends {
                     if let Some(p) = o.pending {
                         rep.premise("C12.R3.unbounded_never_waits");
